@@ -231,5 +231,18 @@ CHECKS["C14"] = {
     "technique": "exhaustive input enumeration (length x content x seed x alignment x neighbourhood) against an independent reference with red-zone and guard-page over-read detection, plus explicit-state exploration of fixed-string states",
 }
 
+CHECKS["C12"] = {
+    "engine": "E3-exhaustive-enumerator",
+    "category": "exploration",
+    "text": "For 45 iterator kinds (xbitset_iterator mutable/const over four block types, owning and view, and its reverse form; the four xoptional_iterator and xcomplex_iterator forms; xstepping_iterator over vector, "
+            "const vector, pointer and deque iterators with steps 1-4 and 7; key/value iterators over map and const map; two iterators deriving directly from the base classes incl. the size_t extension) and EVERY container "
+            "size 0..N (N = 8-18 quick, 64-200 thorough), every law of the statement is evaluated for EVERY position a, every pair (a,b) and every offset d that stays in range: begin/end anchoring, five traversal forms, deref, "
+            "++ -- it++ it--, ==/!=, difference, < <= > >=, it+d, d+it, it-d, += -=, it[d], size_t overloads. The oracle is index arithmetic on the underlying storage; positions are identified by comparing with reference "
+            "iterators built through public constructors, elements by address (or by index-bit patterns for bit proxies).",
+    "design_ref": "DESIGN.md section 3, C12",
+    "note": "Trusted: index arithmetic. Bounds: the stated sizes, steps and element types. xcomplex_iterator has no operator< (order laws skipped) and begin() of the array variants is ill-formed: both capability-probed.",
+    "technique": "exhaustive small-scope enumeration (all sizes x all position pairs x all in-range offsets) of iterator laws against index arithmetic",
+}
+
 NOT_YET = "check not built yet in this round; design in DESIGN.md section 3"
 NOT_APPLICABLE = {}
